@@ -505,3 +505,57 @@ def truncation(ctx):
         r = run_jawk(ctx, ['--select', text + '=x'], b'1')
         c.replay = {'argv': ['--select', text + '=x'], 'rc': r['rc'], 'stderr': show(r['stderr'])[-300:]}
         c.status = 'reproduced' if r['rc'] == 101 or b'panicked' in r['stderr'] else 'not-reproduced'
+
+
+# ---------------------------------------------------------------- the expression reader never panics (C05.d)
+EXPR_CLASSES = [('paren', [ord('(')]), ('dot', [ord('.')]), ('hash', [ord('#')]), ('caret', [ord('^')]), ('colon', [ord(':')]), ('at', [ord('@')]), ('slash', [ord('/')]),
+                ('quote', [ord('"')]), ('digit', list(b'0123456789-')), ('ws', [0x20, 9, 10, 13]), ('other', None)]
+
+
+def _expr_np_task(args):
+    ctx, n, cname, cls = args
+    text = [z3.BitVec(f'e{i}', 8) for i in range(n)]
+    fin = []
+    sc = expr_scenario(ctx, text, fin); ex = sc.ex
+    st, info = sc.initial(arbitrary=False)
+    if cls is not None: st.pc.append(inset(text[0], cls))
+    else:
+        used = [b for _, c in EXPR_CLASSES if c for b in c] + [ord('&')]
+        st.pc.append(z3.And(*[text[0] != b for b in used]))
+    for t in text: st.pc.append(t != ord('&'))        # input-context selectors (&name) are a separate reader, not executed here
+    F = ex.find(r'^read_getter$')
+    KPANICS.clear()
+    ex.new_frame(st, F, [info['rref']])
+    done = ex.run(st) + sc.extra + list(KPANICS)
+    res = {'obl': 0, 'ok': 0, 'cands': [], 'paths': 0, 'samples': []}
+    for d in done:
+        if d.status == 'infeasible': continue
+        res['paths'] += 1; res['obl'] += 1
+        if d.status in ('returned',):
+            res['ok'] += 1; continue
+        ok_, m = ex.valid(d, z3.BoolVal(False))
+        tv = bytes(m.eval(t, True).as_long() for t in text) if m is not None else b''
+        role = 'panic' if d.status == 'panic' else 'loop-bound' if d.status == 'bound' else f'path-{d.status}'
+        res['cands'].append({'role': role + ':' + cname, 'text': f'read_getter on {tv!r}: {d.status} {d.notes[-1:]}', 'model': {'text_hex': tv.hex()}, 'unmodelled': (d.havoc or [None])[0]})
+    res.update(queries=ex.queries, solver_s=ex.solver_s, unhandled=dict(ex.unhandled), summaries=list(ex.used_summaries), bodies=list(ex.used_bodies))
+    return res
+
+
+def expr_nopanic(ctx):
+    run = ctx.run
+    ns = (1, 2, 3) if ctx.quick else (1, 2, 3, 4)
+    run.bounds['expression reader'] = f'every expression text of {ns} bytes (all 256 values per byte except `&`) given to read_getter: extractors, calls, variables, macros, selections, literals'
+    fam = run.family('expr.nopanic', 'the expression reader returns a getter or an error for every text: no panic path, no loop running past the end of the text'); fam.need_witness = False
+    tasks = [(ctx, n, cn, cl) for n in ns for cn, cl in EXPR_CLASSES]
+    results = pmap(_expr_np_task, tasks)
+    merge(run, fam, results)
+    if fam.obligations == fam.discharged: fam.add_sample({'texts': f'all texts of {ns} bytes', 'verdict': 'every path returns'})
+    from .cli import run_jawk, show
+    for c in fam.candidates:
+        t = bytes.fromhex(c.model['text_hex'])
+        try: arg = t.decode('utf-8')
+        except Exception: c.status = 'unit'; continue
+        if '\x00' in arg: c.status = 'unit'; continue
+        r = run_jawk(ctx, ['--select', arg], b'1', timeout=10)
+        c.replay = {'argv': ['--select', arg], 'rc': r['rc'], 'stderr': show(r['stderr'])[-200:]}
+        c.status = 'reproduced' if r['rc'] in (101, 'timeout') or b'panicked' in r['stderr'] else 'unit'
